@@ -29,7 +29,7 @@ LEVEL_TEXT = (
     "TCP: streams of valid frames (all body classes), malformed frames with a readable header length (unknown / unimplemented service, "
     "wrong version, bad body) and partial tails. Short streams are split at every possible boundary set (exhaustive for those streams); "
     "longer ones at every subset of the cut points around each frame boundary, byte by byte, in one chunk and at random boundaries; "
-    "one-chunk streams of up to 5000 minimal frames. UDP: the C20 hostile corpus and valid frames as datagram sequences. "
+    "one-chunk streams of up to 5000 minimal frames; malformed and valid frames announcing 32767 / 32768 / 40000 / 65535 octets (all present) followed by valid frames. UDP: the C20 hostile corpus and valid frames as datagram sequences. "
     "Exploration: streams are sampled; the chunkings of each short stream are complete."
 )
 LEVEL_NOTE = (
@@ -147,7 +147,8 @@ def run_stream(ctx: Any, kind: str, items: list[tuple[str, bytes, Any]], chunks:
         "transport": "tcp",
         "stream_kind": kind,
         "via": via,
-        "frames": [{"kind": k, "octets": d if len(d) <= 200 else d[:200], "len": len(d)} for k, d, _f in items[:40]],
+        "frames": [{"kind": k, "octets": d if len(d) <= 200 else d[:200], "len": len(d), "constant_filler": len(d) > 200 and len(set(d[199:])) == 1}
+                   for k, d, _f in items[:40]],
         "n_frames": len(items),
         "chunk_lengths": [len(c) for c in chunks][:200],
     }
@@ -350,6 +351,47 @@ def tcp_part(ctx: Any, rng: Any, pools: Pools) -> None:
                 run_stream(ctx, kind, items, _split(data, cuts), via=via, loop=loop)
     finally:
         loop.finish()
+    # 5. frames announcing total lengths around the 16-bit sign boundary and the maximum, with that many octets present:
+    #    malformed ones (unknown / unimplemented service, wrong version, bad body) must be skipped, valid big ones delivered
+    loop2 = new_loop()
+    big_totals = (32767, 32768, 40000, 65535)
+    big_kinds = (("unknown-service", 0xFFFF, 0x10), ("unimplemented-service", 0x0533, 0x10), ("wrong-version", 0x0530, 0x11), ("bad-body", 0x0421, 0x10))
+    cases: list[tuple[str, bytes]] = []
+    for j, total in enumerate(big_totals):
+        todo = big_kinds if (total == 32768 or not ctx.quick) else (big_kinds[j % len(big_kinds)],)
+        for name, svc, ver in todo:
+            cases.append(("after-big-malformed-frame", g.header(svc, total, version=ver) + b"\xa5" * (total - 6)))
+    for total in (32767, 32768, 65535):
+        cases.append(("big-valid-frames", g.header(0x0530, total) + b"\x29" * (total - 6)))  # RoutingIndication, long cEMI
+    cases.append(("big-valid-frames", g.header(0x0420, 65535) + bytes((4, 7, 9, 0)) + b"\x11" * (65535 - 10)))  # TunnellingRequest
+    cases.append(("big-valid-frames", g.header(0x0310, 40000) + bytes((4, 7, 9, 0)) + b"\x11" * (40000 - 10)))  # DeviceConfigurationRequest
+    for j, (kind, big) in enumerate(cases):
+        if not ctx.mine(j):
+            continue
+        frame, exc = _isolated(big)
+        if kind == "big-valid-frames":
+            if frame is None:
+                ctx.count("recorded_big_valid_frame_rejected_in_isolation")
+                continue
+            big_item = ("valid", big, frame)
+        else:
+            if frame is not None or not isinstance(exc, CouldNotParseKNXIP):
+                ctx.count("recorded_big_malformed_frame_not_rejected_with_CouldNotParseKNXIP")
+                continue
+            big_item = ("malformed", big, None)
+        head = [("valid", *rng.choice(pools.valid)) for _ in range(rng.randrange(0, 2))]
+        tail = [("valid", *rng.choice(pools.valid)) for _ in range(rng.randrange(2, 5))]
+        items = head + [big_item] + tail
+        data = b"".join(d for _k, d, _f in items)
+        start = sum(len(d) for _k, d, _f in head)
+        end = start + len(big)
+        ctx.count("tcp_big_frame_streams")
+        run_stream(ctx, kind, items, [data])
+        run_stream(ctx, kind, items, _split(data, sorted({start + 3, start + 6, start + 1000, end - 1, end + 2} & set(range(1, len(data))))))
+        for _ in range(ctx.scale(1, 4)):
+            cuts = sorted(set(rng.randrange(1, len(data)) for _ in range(rng.choice((2, 5, 40)))))
+            run_stream(ctx, kind, items, _split(data, cuts), via="loop" if rng.random() < 0.3 else "direct", loop=loop2)
+    loop2.finish()
     # 4. many minimal frames in one chunk (a 256 KiB socket read holds > 40000 of them)
     sizes = ctx.scale((200, 990, 1000, 5000), (200, 990, 1000, 5000, 40000))
     for j, n in enumerate(sizes):
@@ -840,7 +882,7 @@ def run(ctx: Any) -> None:
     )
     ctx.require("tcp_streams_run", "tcp_delivery_lists_equal", "tcp_exhaustive_chunkings", "tcp_frames_delivered", "udp_datagrams_fed",
                 "udp_no_exception", "pool_valid", "pool_malformed_readable_length", "pool_unreadable_header",
-                "tcp_streams_through_loop_transport", "udp_datagrams_through_loop_transport", "tcp_many_frames_one_chunk",
+                "tcp_streams_through_loop_transport", "udp_datagrams_through_loop_transport", "tcp_many_frames_one_chunk", "tcp_big_frame_streams",
                 "secure_session_chunks_fed", "secure_session_handshakes_completed", "secure_session_frames_forwarded_to_callbacks",
                 "secure_group_datagrams_fed", "secure_group_synchronised", "secure_group_frames_forwarded_to_callbacks")
     rng = ctx.rng
@@ -882,7 +924,7 @@ def replay(ctx: Any, witness: dict[str, Any]) -> None:
         _one_secure_history(ctx, pools, witness["transport"].split("-", 1)[1], witness["index"])
         return
     frames = witness["frames"]
-    if witness["n_frames"] > len(frames) or any(f["len"] > 200 for f in frames):
+    if witness["n_frames"] > len(frames) or any(f["len"] > 200 and not f.get("constant_filler") for f in frames):
         if witness["stream_kind"] == "many-frames-in-one-chunk":
             d = unhex(frames[0]["octets"])
             f, _ = _isolated(d)
@@ -893,6 +935,8 @@ def replay(ctx: Any, witness: dict[str, Any]) -> None:
     items = []
     for f in frames:
         d = unhex(f["octets"])
+        if f["len"] > len(d):
+            d += d[-1:] * (f["len"] - len(d))
         fr = _isolated(d)[0] if f["kind"] == "valid" else None
         items.append((f["kind"], d, fr))
     data = b"".join(d for _k, d, _f in items)
